@@ -286,13 +286,15 @@ class Body:
                 out.append((i, t))
         return out
 
-    def stmts(self):
+    def stmts(self, include_cleanup=False):
         for i, b in enumerate(self.blocks):
+            if b.get("cleanup") and not include_cleanup:
+                continue
             for j, s in enumerate(b["stmts"]):
                 yield i, j, s
 
-    def assigns(self):
-        for i, j, s in self.stmts():
+    def assigns(self, include_cleanup=False):
+        for i, j, s in self.stmts(include_cleanup):
             if s["k"] == "assign":
                 yield i, j, s
 
